@@ -9,6 +9,8 @@ type Timer struct {
 	period  int64
 	stopped bool
 	seq     int
+	tid     int // creating thread and its per-thread sequence number: the tie-break among equal
+	tseq    int // deadlines must not depend on the interleaving of independent creations
 }
 
 var epoch = time.Date(2030, 1, 1, 0, 0, 0, 0, time.UTC)
@@ -59,6 +61,11 @@ func newTimer(d time.Duration, period time.Duration) *Timer {
 	t.when = s.now + int64(d)
 	t.period = int64(period)
 	t.seq = len(s.timers)
+	if s.running != nil {
+		t.tid = s.running.id
+		s.running.timers++
+		t.tseq = s.running.timers
+	}
 	s.timers = append(s.timers, t)
 	return t
 }
@@ -89,7 +96,7 @@ func (s *Sched) earliestTimer() *Timer {
 		if t.stopped {
 			continue
 		}
-		if best == nil || t.when < best.when {
+		if best == nil || t.when < best.when || (t.when == best.when && (t.tid < best.tid || (t.tid == best.tid && t.tseq < best.tseq))) {
 			best = t
 		}
 	}
